@@ -15,7 +15,7 @@ From J5V.lib Require Civil Decimal.
 From J5V.proofs Require CodecDecDecimal CodecDecTimeFast.
 From Coq Require Import Permutation.
 From J5V.model Require CodecDecCommute.
-From J5V.proofs Require CodecDecMsgSorted CodecDecReorder CodecDecLenient CodecDecOneofReorder CodecDecDenote CodecDecFull CodecDecSpace CodecDecFloatProofs.
+From J5V.proofs Require CodecDecMsgSorted CodecDecReorder CodecDecLenient CodecDecOneofReorder CodecDecDenote CodecDecFull CodecDecSpace CodecDecFloatProofs CodecDecLeaf.
 From J5V.model Require CodecDecFloat.
 Import ListNotations.
 Local Open Scope N_scope.
@@ -863,11 +863,31 @@ Theorem C03_decimal_exact_closed : forall quoted s c,
 Proof. exact CodecDecFloatProofs.decimal_exact_closed. Qed.
 Print Assumptions C03_decimal_exact_closed.
 
+(* ------------------------------------------------------------------ the leaf reading, without the conversion function *)
+(* proofs/CodecDecLeaf.v: [leaf_reading orc k j x] says what a scalar token denotes kind by kind in independent
+   terms (integers: positional value of sign and digits, within the width; bool / string / key as written;
+   timestamps: a text of the RFC 3339 shape with fields in range and its instant; decimals: canonical text of
+   the number read; dates: three decimal numbers forming a calendar date; floats: nearest-even rounding of
+   the number written; bytes: the model's lenient base64 reading).  Under the three oracle premises (jointly
+   satisfiable: C03_oracle_premises_satisfied) every scalar leaf of a denotation has such a reading. *)
+Theorem C03_leaf_reading_complete : forall orc,
+  T.time_oracle_is_model orc -> D.decimal_oracle_is_model orc -> CodecDecFloat.float_oracle_law orc ->
+  forall k j x, is_container j = false -> scalar_from_go orc k (goval_of_json j) = Ok (Some x) ->
+  CodecDecLeaf.leaf_reading orc k j x.
+Proof. exact CodecDecLeaf.leaf_complete. Qed.
+Print Assumptions C03_leaf_reading_complete.
+
+Theorem C03_denoted_scalar_has_independent_reading : forall orc e k j x,
+  T.time_oracle_is_model orc -> D.decimal_oracle_is_model orc -> CodecDecFloat.float_oracle_law orc ->
+  CodecDecDenote.denotes orc e (FScalar k) j x -> CodecDecLeaf.leaf_reading orc k j x.
+Proof. exact CodecDecLeaf.denoted_scalar_reading. Qed.
+Print Assumptions C03_denoted_scalar_has_independent_reading.
+
 (* LIMITS of C03_full (also in pylib/propcfg/C03.py "partial"):
-   - the leaf reading inside [denotes] is the conversion of the one token (scalar_from_go); what that
-     conversion computes is characterised independently per kind by the scalar theorems above (integers,
-     dates, timestamps, decimals, bool / string / key, base64 canonical forms); float64 / float32 values
-     rest on the float oracle (C03_float_* below / above);
+   - the leaf reading inside [denotes] is the conversion of the one token (scalar_from_go); every such leaf
+     has the independent reading leaf_reading (C03_denoted_scalar_has_independent_reading) under the three
+     oracle premises; for bytes that reading is still the model's lenient base64 decoder (canonical
+     spellings: C03_base64_four_spellings); float values rest on the float oracle law;
    - members whose property is an exposed oneof (empty proto path) are covered by clause (2) of
      denotes_msg ("nothing else", via owns) but not by the per-member clause (1);
    - the hypothesis [lex bs = (tokens_of (JObj ms) ++ rest, me)]: that every accepted text has such a
